@@ -7,6 +7,9 @@ Modes  == {"fin", "rst"}
 \* every request type x every protocol step at which its client can vanish x FIN/RST
 Plans_all == [req : {"worker", "ctxworker"}, step : WSteps, mode : Modes]
              \cup [req : {"ctxcreate", "ctxdelete", "uctxworker"}, step : CSteps, mode : Modes]
+             \cup [req : {"ctxcreate", "ctxdelete"}, step : {"reply"}, mode : Modes]
+             \* a create whose id collides with the live context of the healthy client, vanishing before / after the reply
+             \cup [req : {"ctxdup"}, step : {"hdr", "midpay", "pay", "reply"}, mode : Modes]
 \* for three faulty clients: one representative per (effect class of the code as written)
 Plans_core == {p \in Plans_all : /\ p.req \in {"worker", "ctxworker", "ctxcreate"}
                                  /\ p.step \in {"connect", "midpay", "pay", "addr", "ctrl", "run"}}
